@@ -27,7 +27,7 @@ for sid in ids:
         continue
     t0 = time.time()
     try:
-        rc, out = sh(f'./bin/symgo -verif /verif -repo {WT} -workers 4 -prop {prop} -tier quick', cwd='/verif', timeout=2400)
+        rc, out = sh(f'./bin/symgo -verif /verif -repo {WT} -workers 5 -prop {prop} -tier quick', cwd='/verif', timeout=2400)
     except subprocess.TimeoutExpired:
         rc, out = 124, 'timeout'
     viol = re.findall(r'symgo: violation in (\S+): (.*)', out)
